@@ -214,6 +214,30 @@ def run(ctx):
                     ctx.sample({"sql": " ".join(s.split()), "lint": msg})
     ctx.floor("sql:announcements", n, 1, "gossip upsert statement")
 
+    # 5a. who may mutate the relayer bookkeeping: it is only ever added to (by handle_announcement); forgetting relayers
+    #     while an announcement may still be waiting for the gossip tick sends it back to a peer that delivered it
+    muts = []
+    for f_ in db.all_fns():
+        if f_["unit"] != "radicle_node.rlib":
+            continue
+        for bb_, callee in rules.field_mut_calls(f_, "relayed_by", r"service::Service<"):
+            muts.append((f_, bb_, callee))
+        for bb_, idx_, s_ in rules.field_writes(f_, "relayed_by", r"service::Service<"):
+            muts.append((f_, bb_, "assignment"))
+    ctx.floor("who:relayed_by", len(muts), 1, "mutating uses of Service.relayed_by")
+    for f_, bb_, callee in muts:
+        rk = rules.root_key(db, f_)
+        grow = re.search(r"HashMap::entry$|Entry::or_default$|Vec::push$|HashMap::insert$|or_insert", callee or "") is not None
+        keyk = "who:relayed_by:%s:%s" % (rk, cfg.short(callee or "write"))
+        if re.search(r"Service::(handle_announcement|new)$", rk) and grow:
+            ctx.held(keyk, "relayers are recorded by handle_announcement", rules.where(f_, bb_), fn=f_)
+        elif grow:
+            ctx.check(keyk, bool(re.search(r"Service::handle_announcement$", rk)), "relayers are recorded only where announcements are received", rules.where(f_, bb_), fn=f_)
+        else:
+            ctx.violated(keyk, "the relayer bookkeeping is shrunk (%s in %s): relayers of announcements that still wait for the gossip tick are forgotten, "
+                         "so the announcement is relayed back to a peer that delivered it" % (cfg.short(callee or "write"), cfg.short(rk)),
+                         rules.where(f_, bb_), fn=f_)
+
     # 5. the relayer is recorded whenever the announcement is stored, or found to be a duplicate of the stored one
     push = [bb for bb, callee in rules.field_mut_calls(ha, "relayed_by")]
     ctx.floor("relayed_by:record", len(push), 1, "relayed_by recording site")
